@@ -3907,7 +3907,12 @@ class ScoreVariant(object):
             # for each of the new objects, replace the references to the old
             # objects to their corresponding new objects
             for o in o_new:
+                start = o.start
                 o.replace_refs(o_map)
+                if start is not None and o.start is None:
+                    # assigning the start note of a slur takes the slur off
+                    # the timeline: put the copy back
+                    start.add_starting_object(o)
 
         # replace prev/next references in timepoints
         for tp, tp_next in iter_current_next(part._points):
